@@ -233,11 +233,9 @@ theorem C04_tail_keeps_check (pc : PC) (t : Tail) : check (runTail pc t).1 = che
   | remoteAnswer ans isReneg =>
     simp only [runTail]
     split
-    · rfl
-    · split
-      · exact check_congr rfl rfl rfl (setCurDirs_view _ _ _ _)
-      · rename_i trs hs
-        exact check_congr rfl rfl rfl ((startSenders_view hs).trans (setCurDirs_view _ _ _ _))
+    · exact check_congr rfl rfl rfl (setCurDirs_view _ _ _ _)
+    · rename_i trs hs
+      exact check_congr rfl rfl rfl ((startSenders_view hs).trans (setCurDirs_view _ _ _ _))
 
 /-! ### the pair the harness runs -/
 
